@@ -48,6 +48,9 @@ Definition alias_suffix (askw_ : bool) (aqc qc : option string) (a : string) : s
 Definition alias_toks (c : ctx) (qc : option string) (ts : list tok) (alias : option string) : list tok :=
   match alias with None => ts | Some a => ts ++ [KText (alias_suffix (askw c) (aq c) qc a)] end.
 
+(* Terms.opnd on tokens: an operand that is a predicate is parenthesised (gen/TermsTable.v: operand_parens) *)
+Definition opndT (sl : oslot) (t : term) (ts : list tok) : list tok := ptoks (operand_parens sl (okind_of t)) ts.
+
 Fixpoint rtoks (c : ctx) (t : term) {struct t} : res (list tok) :=
   match t with
   | TField name tbl alias =>
@@ -56,31 +59,41 @@ Fixpoint rtoks (c : ctx) (t : term) {struct t} : res (list tok) :=
   | TStar tbl => Ok [KRef tbl (qualifier (wn c) tbl) "*" true]
   | TValS _ _ | TValI _ _ | TValB _ _ _ | TValNone _ | TValRaw _ _ | TLit _ _ | TParam _ | TSub _ _ _ =>
       s <- render c t ;; Ok [KText s]
-  | TNeg t' => ts <- rtoks c t' ;; Ok (KText "-" :: ts)
+  | TNeg t' =>
+      s0 <- rtoks (opc SNeg t' c) t' ;;
+      let s := opndT SNeg t' s0 in
+      Ok (KText "-" :: ptoks (match t' with TArith _ _ _ _ => neg_parens_arith | TNeg _ => neg_parens_neg | _ => false end
+                             || (neg_parens_minus && starts_minus (flat (q c) s))) s)
   | TArith op l r alias =>
       let c' := set_wa c false in
-      a <- rtoks c' l ;; b <- rtoks c' r ;;
-      let s := ptoks (left_needs_parens op (top_op l)) a ++ KText (aop_text op) :: ptoks (right_needs_parens op (top_op r)) b in
+      a0 <- rtoks (opc SArithL l c') l ;; b0 <- rtoks (opc SArithR r c') r ;;
+      let a := opndT SArithL l a0 in
+      let b := opndT SArithR r b0 in
+      let rp := right_needs_parens op (top_op r)
+                || (sub_parens_minus && (match op with OSub => true | _ => false end) && starts_minus (flat (q c) b)) in
+      let s := ptoks (left_needs_parens op (top_op l)) a ++ KText (aop_text op) :: ptoks rp b in
       Ok (if wa c then alias_toks c (q c) s alias else s)
   | TBasic cm l r alias =>
       let c' := set_wa c false in
-      a <- rtoks c' l ;; b <- rtoks c' r ;;
-      let s := a ++ KText (cmp_text cm) :: b in
+      a0 <- rtoks (opc SCmpL l c') l ;; b0 <- rtoks (opc SCmpR r c') r ;;
+      let s := opndT SCmpL l a0 ++ KText (cmp_text cm) :: opndT SCmpR r b0 in
       Ok (if wa c then alias_toks c None s alias else s)
   | TCplx bo l r alias =>
       a <- rtoks (set_subc c (needs_brackets_x bo (top_bop l))) l ;;
       b <- rtoks (set_subc c (needs_brackets_x bo (top_bop r))) r ;;
       Ok (ptoks (subc c) (a ++ KText (" " ++ bop_text_x bo ++ " ") :: b))
   | TIn t' cont negated alias =>
-      a <- rtoks (set_subq c false) t' ;; b <- rtoks (set_subq c true) cont ;;
-      Ok (alias_toks c (q c) (a ++ KText (" " ++ (if negated then "NOT " else "") ++ "IN ") :: b) alias)
+      a <- rtoks (opc SInTerm t' (set_subq c false)) t' ;; b <- rtoks (set_subq c true) cont ;;
+      Ok (alias_toks c (q c) (opndT SInTerm t' a ++ KText (" " ++ (if negated then "NOT " else "") ++ "IN ") :: b) alias)
   | TBetween t' lo hi alias =>
-      a <- rtoks c t' ;; b <- rtoks c lo ;; d <- rtoks c hi ;;
-      Ok (alias_toks c (q c) (a ++ KText " BETWEEN " :: b ++ KText " AND " :: d) alias)
+      a <- rtoks (opc SBetTerm t' c) t' ;; b <- rtoks (opc SBetLo lo c) lo ;; d <- rtoks (opc SBetHi hi c) hi ;;
+      Ok (alias_toks c (q c) (opndT SBetTerm t' a ++ KText " BETWEEN " :: opndT SBetLo lo b ++ KText " AND " :: opndT SBetHi hi d) alias)
   | TBitAnd t' v alias =>
       a <- rtoks c t' ;; Ok (alias_toks c (q c) (KText "(" :: a ++ [KText (" & " ++ v ++ ")")]) alias)
-  | TIsNull t' alias => a <- rtoks (set_wa c false) t' ;; Ok (alias_toks c (q c) (a ++ [KText " IS NULL"]) alias)
-  | TNotNull t' alias => a <- rtoks (set_wa c false) t' ;; Ok (alias_toks c (q c) (a ++ [KText " IS NOT NULL"]) alias)
+  | TIsNull t' alias =>
+      a <- rtoks (opc SIsNull t' (set_wa c false)) t' ;; Ok (alias_toks c (q c) (opndT SIsNull t' a ++ [KText " IS NULL"]) alias)
+  | TNotNull t' alias =>
+      a <- rtoks (opc SNotNull t' (set_wa c false)) t' ;; Ok (alias_toks c (q c) (opndT SNotNull t' a ++ [KText " IS NOT NULL"]) alias)
   | TNot t' alias => a <- rtoks (set_subc c true) t' ;; Ok (alias_toks (set_subc c true) (q c) (KText "NOT " :: a) alias)
   | TAll t' alias => a <- rtoks c t' ;; Ok (alias_toks c (q c) (a ++ [KText " ALL"]) alias)
   | TEmpty => Err "TypeError"
@@ -236,6 +249,9 @@ Definition sel_cx (k : kctx) (wns : bool) (cl : clause) : ctx :=
   match cl with
   | ClSelect => ctx_item k true true wns
   | ClOn | ClWhere => ctx_item k false true wns
+  | ClHaving => ctx_item k false clause_subq_having wns
+  | ClGroupBy => ctx_item k false clause_subq_groupby wns
+  | ClOrderBy => ctx_item k false clause_subq_orderby wns
   | _ => ctx_item k false false wns
   end.
 Definition upd_cx (k : kctx) (wns : bool) (cl : clause) : ctx :=
@@ -244,6 +260,7 @@ Definition upd_cx (k : kctx) (wns : bool) (cl : clause) : ctx :=
   | ClOn => set_subq (set_wa base false) true
   | ClWhere => set_subq base true
   | ClSetTarget | ClInsColumn => set_wn base false
+  | ClSetValue => if clause_subq_setvalue then set_subq base true else base
   | _ => base
   end.
 (* clauses whose references are rendered with with_namespace=False by documented intent *)
@@ -330,7 +347,7 @@ Definition sel_render (kin : kctx) (walias subquery : bool) (ali : option string
          | [] => Ok ""%string
          | _ => gs <- mapM (fun y => match (if k_gba k then alias_ref selects y else None) with
                                      | Some a => Ok (fq (or_ostr (aq base) (q base)) a)
-                                     | None => ritem kk srcs (cx ClGroupBy) y end) groupbys ;;
+                                     | None => ritem (mk_k (kc kk) (k_abs kk) true) srcs (cx ClGroupBy) y end) groupbys ;;
                 Ok (" GROUP BY " ++ join "," gs)%string end) ;;
   hv <- opt_bind havings (fun i => a <- ritem kk srcs (cx ClHaving) i ;; Ok (" HAVING " ++ a)%string) ;;
   ob <- (match orderbys with
@@ -499,7 +516,7 @@ Definition sel_toks (kin : kctx) (walias subquery : bool) (ali : option string)
          | [] => Ok []
          | _ => gs <- mapT (fun y => match (if k_gba k then alias_ref selects y else None) with
                                      | Some a => Ok [KText (fq (or_ostr (aq base) (q base)) a)]
-                                     | None => itoks kk srcs (cx ClGroupBy) y end) groupbys ;;
+                                     | None => itoks (mk_k (kc kk) (k_abs kk) true) srcs (cx ClGroupBy) y end) groupbys ;;
                 Ok (KText " GROUP BY " :: jtoks "," gs) end) ;;
   hv <- opt_bindT havings (fun i => a <- itoks kk srcs (cx ClHaving) i ;; Ok (KText " HAVING " :: a)) ;;
   ob <- (match orderbys with
